@@ -14,6 +14,80 @@ fn intersects_i64(a: &Geometry<i64>, b: &Geometry<i64>) -> bool {
     with_geom!(a, x => with_geom!(b, y => x.intersects(y)))
 }
 
+fn check_pair(acc: &mut Acc, idx: usize, a: &Shape, b: &Shape, gia: &Geometry<i64>, gib: &Geometry<i64>) {
+        let truth = mstr(&de9im(&a.ag, &b.ag));
+        let exp = [m_intersects(&truth), m_contains(&truth), m_within(&truth)];
+        acc.sample(idx, || json!({"a": a.wkt(), "b": b.wkt(), "true_matrix": truth, "intersects/contains/within": exp}));
+        let got = [
+            ("intersects", exp[0], guard(|| intersects_concrete(&a.g, &b.g))),
+            ("contains", exp[1], guard(|| contains_concrete(&a.g, &b.g))),
+            ("within", exp[2], guard(|| within_concrete(&a.g, &b.g))),
+            ("intersects<i64>", exp[0], guard(|| intersects_i64(gia, gib))),
+            ("intersects[enum]", exp[0], guard(|| intersects_enum(&a.g, &b.g))),
+            ("contains[enum]", exp[1], guard(|| contains_enum(&a.g, &b.g))),
+        ];
+        // Contains on the integer instantiation, where the impl exists for a non-float scalar
+        {
+            #[allow(unused_imports)]
+            use crate::ops::{NoC, YesC, P};
+            let r = guard(|| with_geom!(gia, x => with_geom!(gib, y => (&P(x, y)).go_c())));
+            match r {
+                Ok(None) => acc.count("Contains<i64> not implemented for some type pairs (skipped)", 1),
+                Ok(Some(v)) => {
+                    acc.evals += 1;
+                    acc.class(format!("contains<i64> {}x{} {} {}", a.ty(), b.ty(), truth, exp[1]));
+                    if v != exp[1] {
+                        acc.viol(format!("contains<i64> {}x{} matrix={} expected={} got={}", a.ty(), b.ty(), truth, exp[1], v), idx, || {
+                            json!({"a": a.wkt(), "b": b.wkt(), "true_matrix": truth, "expected": exp[1], "got": v})
+                        });
+                    }
+                }
+                Err(p) => acc.viol(format!("contains<i64> {}x{} panic", a.ty(), b.ty()), idx, || json!({"a": a.wkt(), "b": b.wkt(), "panic": p})),
+            }
+        }
+        for (op, e, g) in got {
+            acc.evals += 1;
+            acc.class(format!("{} {}x{} {} {}", op, a.ty(), b.ty(), truth, e));
+            let gs = match g {
+                Ok(v) => v.to_string(),
+                Err(p) => format!("panic:{}", p),
+            };
+            if gs != e.to_string() {
+                acc.viol(format!("{} {}x{} matrix={} expected={} got={}", op, a.ty(), b.ty(), truth, e, gs), idx, || {
+                    json!({"a": a.wkt(), "b": b.wkt(), "true_matrix": truth, "expected": e, "got": gs})
+                });
+            }
+        }
+        // Coord-operand impls
+        if let Geometry::Point(p) = &b.g {
+            let co = p.0;
+            #[allow(unused_imports)]
+            use crate::ops::{NoC, NoI, YesC, YesI, P};
+            let got = [
+                ("intersects<Coord>", exp[0], guard(|| with_geom!(&a.g, x => (&P(x, &co)).go_i()))),
+                ("Coord.intersects", exp[0], guard(|| with_geom!(&a.g, x => (&P(&co, x)).go_i()))),
+                ("contains<Coord>", exp[1], guard(|| with_geom!(&a.g, x => (&P(x, &co)).go_c()))),
+            ];
+            for (op, e, g) in got {
+                acc.evals += 1;
+                let gs = match g {
+                    Ok(Some(v)) => v.to_string(),
+                    Ok(None) => {
+                        acc.count(&format!("not implemented: {} {}", op, a.ty()), 1);
+                        continue;
+                    }
+                    Err(p) => format!("panic:{}", p),
+                };
+                acc.class(format!("{} {} {} {}", op, a.ty(), truth, e));
+                if gs != e.to_string() {
+                    acc.viol(format!("{} {} matrix={} expected={} got={}", op, a.ty(), truth, e, gs), idx, || {
+                        json!({"a": a.wkt(), "coord": format!("{:?}", co), "true_matrix": truth, "expected": e, "got": gs})
+                    });
+                }
+            }
+        }
+}
+
 pub fn run(mut run: Run) -> i32 {
     let mut cfg = super::c01::cfg(&run.ctx);
     if run.ctx.quick() {
@@ -91,79 +165,54 @@ pub fn run(mut run: Run) -> i32 {
     });
     run.stage("pairs", n * n, |idx, acc| {
         let (ia, ib) = (idx / n, idx % n);
-        let (a, b) = (&shapes[ia], &shapes[ib]);
-        let truth = mstr(&de9im(&a.ag, &b.ag));
-        let exp = [m_intersects(&truth), m_contains(&truth), m_within(&truth)];
-        acc.sample(idx, || json!({"a": a.wkt(), "b": b.wkt(), "true_matrix": truth, "intersects/contains/within": exp}));
-        let got = [
-            ("intersects", exp[0], guard(|| intersects_concrete(&a.g, &b.g))),
-            ("contains", exp[1], guard(|| contains_concrete(&a.g, &b.g))),
-            ("within", exp[2], guard(|| within_concrete(&a.g, &b.g))),
-            ("intersects<i64>", exp[0], guard(|| intersects_i64(&ishapes[ia], &ishapes[ib]))),
-            ("intersects[enum]", exp[0], guard(|| intersects_enum(&a.g, &b.g))),
-            ("contains[enum]", exp[1], guard(|| contains_enum(&a.g, &b.g))),
-        ];
-        // Contains on the integer instantiation, where the impl exists for a non-float scalar
-        {
-            #[allow(unused_imports)]
-            use crate::ops::{NoC, YesC, P};
-            let r = guard(|| with_geom!(&ishapes[ia], x => with_geom!(&ishapes[ib], y => (&P(x, y)).go_c())));
-            match r {
-                Ok(None) => acc.count("Contains<i64> not implemented for some type pairs (skipped)", 1),
-                Ok(Some(v)) => {
-                    acc.evals += 1;
-                    acc.class(format!("contains<i64> {}x{} {} {}", a.ty(), b.ty(), truth, exp[1]));
-                    if v != exp[1] {
-                        acc.viol(format!("contains<i64> {}x{} matrix={} expected={} got={}", a.ty(), b.ty(), truth, exp[1], v), idx, || {
-                            json!({"a": a.wkt(), "b": b.wkt(), "true_matrix": truth, "expected": exp[1], "got": v})
-                        });
-                    }
-                }
-                Err(p) => acc.viol(format!("contains<i64> {}x{} panic", a.ty(), b.ty()), idx, || json!({"a": a.wkt(), "b": b.wkt(), "panic": p})),
-            }
-        }
-        for (op, e, g) in got {
-            acc.evals += 1;
-            acc.class(format!("{} {}x{} {} {}", op, a.ty(), b.ty(), truth, e));
-            let gs = match g {
-                Ok(v) => v.to_string(),
-                Err(p) => format!("panic:{}", p),
-            };
-            if gs != e.to_string() {
-                acc.viol(format!("{} {}x{} matrix={} expected={} got={}", op, a.ty(), b.ty(), truth, e, gs), idx, || {
-                    json!({"a": a.wkt(), "b": b.wkt(), "true_matrix": truth, "expected": e, "got": gs})
-                });
-            }
-        }
-        // Coord-operand impls
-        if let Geometry::Point(p) = &b.g {
-            let co = p.0;
-            #[allow(unused_imports)]
-            use crate::ops::{NoC, NoI, YesC, YesI, P};
-            let got = [
-                ("intersects<Coord>", exp[0], guard(|| with_geom!(&a.g, x => (&P(x, &co)).go_i()))),
-                ("Coord.intersects", exp[0], guard(|| with_geom!(&a.g, x => (&P(&co, x)).go_i()))),
-                ("contains<Coord>", exp[1], guard(|| with_geom!(&a.g, x => (&P(x, &co)).go_c()))),
-            ];
-            for (op, e, g) in got {
+        check_pair(acc, idx, &shapes[ia], &shapes[ib], &ishapes[ia], &ishapes[ib]);
+    });
+    // images under integer affine maps (exact oracle recomputed on the image): no axis-parallel edges, steep / nearly parallel edges, large coordinates
+    {
+        let step = run.ctx.pick(6, 2);
+        let sub: Vec<&Shape> = shapes.iter().step_by(step).collect();
+        let ns = sub.len();
+        for f in &imaps() {
+            let img: Vec<Shape> = sub.iter().map(|s| map_shape(s, f)).collect();
+            let iimg: Vec<Geometry<i64>> = img.iter().map(|s| to_i64(&s.g)).collect();
+            run.stage(&format!("pairs-affine-image {}", f.name), ns * ns, |idx, acc| {
+                let (ia, ib) = (idx / ns, idx % ns);
+                check_pair(acc, idx, &img[ia], &img[ib], &iimg[ia], &iimg[ib]);
+            });
+            // coordinate_position of the images at the images of the half-step lattice points (doubled map: all integers)
+            let nq2 = 64usize;
+            run.stage(&format!("coordinate_position-affine-image {}", f.name), ns * nq2, |idx, acc| {
+                let s = &img[idx / nq2];
+                let q = idx % nq2;
+                // query = f(k/2) for k in -2..6 in both coordinates: f is affine with integer coefficients, so 2*f(k/2) is an integer point
+                let (kx, ky) = ((q / 8) as i64 - 2, (q % 8) as i64 - 2);
+                let (x2, y2) = (f.m[0] * kx + f.m[1] * ky + 2 * f.t.0, f.m[2] * kx + f.m[3] * ky + 2 * f.t.1);
+                let hp = HP::new(x2 as i128, y2 as i128, 2);
+                let co = Coord { x: x2 as f64 / 2.0, y: y2 as f64 / 2.0 };
+                let exp = match locate(&s.ag, &hp) {
+                    I => CoordPos::Inside,
+                    B => CoordPos::OnBoundary,
+                    _ => CoordPos::Outside,
+                };
                 acc.evals += 1;
-                let gs = match g {
-                    Ok(Some(v)) => v.to_string(),
-                    Ok(None) => {
-                        acc.count(&format!("not implemented: {} {}", op, a.ty()), 1);
-                        continue;
-                    }
+                acc.class(format!("cpos-image {} {:?}", s.ty(), exp));
+                let got = guard(|| with_geom!(&s.g, x => x.coordinate_position(&co)));
+                let gs = match got {
+                    Ok(v) => format!("{:?}", v),
                     Err(p) => format!("panic:{}", p),
                 };
-                acc.class(format!("{} {} {} {}", op, a.ty(), truth, e));
-                if gs != e.to_string() {
-                    acc.viol(format!("{} {} matrix={} expected={} got={}", op, a.ty(), truth, e, gs), idx, || {
-                        json!({"a": a.wkt(), "coord": format!("{:?}", co), "true_matrix": truth, "expected": e, "got": gs})
-                    });
+                // the known MultiLineString finding keeps its own signature in the lattice stage; here every mismatch is reported with the map
+                let at_even_endpoint = matches!(&s.ag, AG::Lines(ls) if ls.iter().filter(|l| l[0] != l[l.len() - 1]).map(|l| (HP::int(l[0]) == hp) as usize + (HP::int(l[l.len() - 1]) == hp) as usize).sum::<usize>() == 2);
+                if gs != format!("{:?}", exp) {
+                    if at_even_endpoint && s.ty() == "MultiLineString" {
+                        acc.viol(format!("coordinate_position MultiLineString at-endpoint-of-2-members expected={:?} got={}", exp, gs), idx, || json!({"g": s.wkt(), "coord": [co.x, co.y], "expected": format!("{:?}", exp), "got": gs}));
+                    } else {
+                        acc.viol(format!("coordinate_position[affine image] {} expected={:?} got={}", s.ty(), exp, gs), idx, || json!({"g": s.wkt(), "coord": [co.x, co.y], "expected": format!("{:?}", exp), "got": gs, "map": f.name}));
+                    }
                 }
-            }
+            });
         }
-    });
+    }
     if !run.ctx.quick() {
         let g4 = families(&super::c01::cfg_g4());
         let n4 = g4.len();
